@@ -348,6 +348,7 @@ Definition g_cache_purge_sink (self_sink : list ivl) (start : Z) (end_ : Z) : (l
 
 (* calgebra/cache.py: CachedTimeline._fill_gap *)
 Definition g_cache_fill_gap_clip {KEYS : Type} (self_sink : list ivl) (self_key_validated : bool) (self_key_fields : option KEYS) (source_fetch : option Z -> option Z -> bool -> list ivl) (gap_start : Z) (gap_end : Z) : (list ivl * bool) :=
+  let fetched := (source_fetch (Some gap_start) (Some gap_end) false) in
   iter_for
     (fun '(self_sink, self_key_validated) ivl_ =>
       let self_key_validated :=
@@ -393,7 +394,7 @@ Definition g_cache_fill_gap_clip {KEYS : Type} (self_sink : list ivl) (self_key_
         (SCont (self_sink, self_key_validated)))
     (fun '(self_sink, self_key_validated) =>
       (self_sink, self_key_validated))
-    (self_sink, self_key_validated) (source_fetch (Some gap_start) (Some gap_end) false).
+    (self_sink, self_key_validated) fetched.
 
 (* calgebra/cache.py: CachedTimeline._evict_expired *)
 Definition g_cache_evict_expired (fuel : nat) (clock_now : Z) (self_expiry_heap : list hent) (self_cover : list cov) (self_sink : list ivl) : res (list hent * list cov * list ivl) :=
